@@ -167,7 +167,9 @@ class C02(common.Prop):
             if r[0] == "ok":
                 from pose_format import Pose
                 import io
-                pg.set_memo("empty")
+                # "just read": in a fresh process, or after the same file was read before and that first pose was edited by
+                # its owner (header dimensions reassigned, a point renamed, a colour changed) - a function of the case only
+                pg.set_memo("same" if len(ref) % 2 else "empty", same_bytes=ref)
                 try:
                     p = Pose.read(bytes(ref))
                     buf = io.BytesIO()
